@@ -40,6 +40,11 @@ CHECKS = {
         text="Histories over three clients, one server key set and a foreign one: full / resumed (id, RFC 5077 ticket, TLS 1.3 PSK) connections, clock advances from seconds to 60 days, fatal alerts, dirty closes, cache pressure, ticket-key add/remove, "
              "byte-level edits of ids/tickets/identities, re-offers under other suite/version/EMS; fixed aimed histories sweep clock jumps and every byte of the ticket header. Oracle: whenever the server completes as resumed the presented identifier must be one this server issued, "
              "unexpired, not invalidated, key still loaded, same version/suite/EMS and same secret."),
+    "C19": dict(engine="fault", level="fault_enumeration", design="10/C19",
+        technique="deterministic simulation with allocator and entropy-read fault injection: exhaustive single-fault enumeration per scenario plus seeded multi-fault sequences",
+        text="21 scenarios (key loading, session creation, full/resumed/client-auth/PSK handshakes per version incl. DTLS fragmentation, data with buffer growth, seven must-fail authentication scenarios) are first run fault-free to count allocations and entropy reads; "
+             "then every allocation index is failed once (thorough: all; quick: all of the short scenarios, first 600 + stride of the long ones), every entropy read is failed, and seeded multi-fault/burst sequences are run. "
+             "Oracle: no sanitizer report or signal, delivered data never altered, zero live library blocks after the application deleted its objects (leak attributed to the owning function by a frame-pointer backtrace), must-fail scenarios never complete. Remaining leak sites are recorded known findings."),
 }
 
 NOT_APPLICABLE = [
